@@ -6,6 +6,7 @@
   byte the same) holds for what the source says today.
 -/
 import RSVerif.Gen.SrcKernel
+import RSVerif.Proofs.SimdBlockSpec
 
 namespace RS.SrcK
 open RS RS.RustK
@@ -96,5 +97,105 @@ theorem nosimd_ifft_partial (x y : List Block) :
     NoSimd_ifft_butterfly_partial (lut16 mulf) x y = zipUpd2 (nosimdIfftb mulf) x y := by
   show (zipUpd1 (nosimdMulAdd mulf) x (zipUpd1 blockXor y x), zipUpd1 blockXor y x) = _
   rw [zipUpd1_first]; rfl
+
+/-! ### Naive (the exp / log kernel applied symbol by symbol) -/
+
+/-- `GfElement::from(lo) | (GfElement::from(hi) << 8)` is the symbol made of the two bytes -/
+theorem join16 (lo hi : Byte) : (lo.setWidth 16 ||| (hi.setWidth 16 <<< 8)) = joinBytes lo hi := by
+  apply BitVec.eq_of_toNat_eq
+  rw [joinBytes_toNat]
+  have hl := lo.isLt
+  have hh := hi.isLt
+  rw [BitVec.toNat_or, BitVec.toNat_shiftLeft, BitVec.toNat_setWidth, BitVec.toNat_setWidth]
+  have e1 : lo.toNat % 2 ^ 16 = lo.toNat := Nat.mod_eq_of_lt (by omega)
+  have e2 : hi.toNat % 2 ^ 16 = hi.toNat := Nat.mod_eq_of_lt (by omega)
+  rw [e1, e2, Nat.shiftLeft_eq]
+  have e3 : hi.toNat * 2 ^ 8 % 2 ^ 16 = hi.toNat * 2 ^ 8 := Nat.mod_eq_of_lt (by omega)
+  rw [e3]
+  have : hi.toNat * 2 ^ 8 = 2 ^ 8 * hi.toNat := Nat.mul_comm _ _
+  rw [this, Nat.or_comm, ← Nat.two_pow_add_eq_or_of_lt (by omega : lo.toNat < 2 ^ 8)]
+  omega
+
+/-- `Naive::mul` on one chunk -/
+theorem naive_mul_block (mulf : Sym → Sym) (b : Block) :
+    (List.range 32).foldl (fun (chunk : Block) (i : Nat) =>
+      let lo_1 := (chunk.toArray.getD i 0#8).setWidth 16
+      let hi_1 := (chunk.toArray.getD (i + 32) 0#8).setWidth 16
+      let prod_1 := mulf (lo_1 ||| (hi_1 <<< 8))
+      let chunk_1 := chunk.setIfInBounds i (prod_1.setWidth 8)
+      let chunk_2 := chunk_1.setIfInBounds (i + 32) ((prod_1 >>> 8).setWidth 8)
+      chunk_2) b = specMulBlock mulf b := by
+  apply fold_range32
+  intro k c hk hc j hj
+  have ck : c.toArray.getD k 0#8 = b.toArray.getD k 0#8 := by
+    rw [hc k (by omega), if_neg (by omega)]
+  have ck32 : c.toArray.getD (k + 32) 0#8 = b.toArray.getD (k + 32) 0#8 := by
+    rw [hc (k + 32) (by omega), if_neg (by omega)]
+  simp only []
+  rw [vget_set _ _ _ _ hj, vget_set _ _ _ _ hj, ck, ck32, join16, setWidth8_hi, setWidth8_lo]
+  by_cases h1 : k + 32 = j
+  · subst h1
+    rw [if_pos rfl, if_pos (by omega)]
+    exact (specMulBlock_hi mulf b ⟨k, hk⟩).symm
+  · rw [if_neg h1]
+    by_cases h2 : k = j
+    · subst h2
+      rw [if_pos rfl, if_pos (by omega)]
+      exact (specMulBlock_lo mulf b ⟨k, hk⟩).symm
+    · rw [if_neg h2, hc j hj]
+      by_cases h3 : j % 32 < k
+      · rw [if_pos h3, if_pos (by omega)]
+      · rw [if_neg h3, if_neg (by omega)]
+
+/-- `Naive::mul_add` on one chunk pair: `x ^= y·m` -/
+theorem naive_mul_add_block (mulf : Sym → Sym) (x y : Block) :
+    (List.range 32).foldl (fun (x_chunk : Block) (i : Nat) =>
+      let lo_1 := (y.toArray.getD i 0#8).setWidth 16
+      let hi_1 := (y.toArray.getD (i + 32) 0#8).setWidth 16
+      let prod_1 := mulf (lo_1 ||| (hi_1 <<< 8))
+      let x_chunk_1 := x_chunk.setIfInBounds i (x_chunk.toArray.getD i 0#8 ^^^ prod_1.setWidth 8)
+      let x_chunk_2 := x_chunk_1.setIfInBounds (i + 32) (x_chunk_1.toArray.getD (i + 32) 0#8 ^^^ (prod_1 >>> 8).setWidth 8)
+      x_chunk_2) x = blockXor x (specMulBlock mulf y) := by
+  apply fold_range32
+  intro k c hk hc j hj
+  have ck : c.toArray.getD k 0#8 = x.toArray.getD k 0#8 := by
+    rw [hc k (by omega), if_neg (by omega)]
+  have ck32 : c.toArray.getD (k + 32) 0#8 = x.toArray.getD (k + 32) 0#8 := by
+    rw [hc (k + 32) (by omega), if_neg (by omega)]
+  simp only []
+  have hne : ¬ k = k + 32 := by omega
+  rw [vget_set _ _ _ _ hj, vget_set _ _ _ _ hj, vget_set _ _ _ (k + 32) (by omega),
+    if_neg hne, ck, ck32, join16, setWidth8_hi, setWidth8_lo]
+  by_cases h1 : k + 32 = j
+  · subst h1
+    rw [if_pos rfl, if_pos (by omega), blockXor_getD _ _ _ hj]
+    exact congrArg _ (specMulBlock_hi mulf y ⟨k, hk⟩).symm
+  · rw [if_neg h1]
+    by_cases h2 : k = j
+    · subst h2
+      rw [if_pos rfl, if_pos (by omega), blockXor_getD _ _ _ hj]
+      exact congrArg _ (specMulBlock_lo mulf y ⟨k, hk⟩).symm
+    · rw [if_neg h2, hc j hj]
+      by_cases h3 : j % 32 < k
+      · rw [if_pos h3, if_pos (by omega)]
+      · rw [if_neg h3, if_neg (by omega)]
+
+theorem naive_mul (mulf : Sym → Sym) (x : List Block) : Naive_mul mulf x = x.map (specMulBlock mulf) := by
+  unfold Naive_mul
+  exact List.map_congr_left fun b _ => naive_mul_block mulf b
+
+theorem naive_mul_add (mulf : Sym → Sym) (x y : List Block) :
+    Naive_mul_add mulf x y = zipUpd1 (fun a b => blockXor a (specMulBlock mulf b)) x y := by
+  unfold Naive_mul_add
+  have h : (fun (x_chunk y_chunk : Block) =>
+      (List.range 32).foldl (fun (x_chunk : Block) (i : Nat) =>
+        let lo_1 := (y_chunk.toArray.getD i 0#8).setWidth 16
+        let hi_1 := (y_chunk.toArray.getD (i + 32) 0#8).setWidth 16
+        let prod_1 := mulf (lo_1 ||| (hi_1 <<< 8))
+        let x_chunk_1 := x_chunk.setIfInBounds i (x_chunk.toArray.getD i 0#8 ^^^ prod_1.setWidth 8)
+        let x_chunk_2 := x_chunk_1.setIfInBounds (i + 32) (x_chunk_1.toArray.getD (i + 32) 0#8 ^^^ (prod_1 >>> 8).setWidth 8)
+        x_chunk_2) x_chunk) = fun a b => blockXor a (specMulBlock mulf b) :=
+    funext fun a => funext fun b => naive_mul_add_block mulf a b
+  exact congrArg (fun f => zipUpd1 f x y) h
 
 end RS.SrcK
